@@ -101,12 +101,22 @@ ICTime(vs) ==
     \cup { [ics |-> ICAll(vs) \o << [name |-> "t", val |-> 20], [name |-> "t_minus_1", val |-> 21] >>,
             icform |-> "float"] : n \in {"t"} \ Names(vs) }
 
+(* the stated VALUE as a dimension: zero is a value like any other - it is not "no initial   *)
+(* condition": a constant or any variable computable at time zero would otherwise start at    *)
+(* its computed value                                                                         *)
+Zeroed(ics) == [i \in 1..Len(ics) |-> [ics[i] EXCEPT !.val = 0]]
+HasZeroIC(c) == \E i \in 1..Len(c.ics) : c.ics[i].val = 0
+ICZero(vs) ==
+    { [ics |-> Zeroed(ICOne(vs, i)), icform |-> "float"] : i \in 1..Len(NonExo(vs)) }
+    \cup { [ics |-> Zeroed(ICAll(vs)), icform |-> f] : f \in {"float", "int"} }
+
 ICChoices(vs) ==
     { [ics |-> << >>, icform |-> "float"] }
     \cup { [ics |-> ICOne(vs, i), icform |-> "float"] : i \in 1..Len(NonExo(vs)) }
     \cup { [ics |-> ICOne(vs, 1), icform |-> f] : f \in {"int", "undef"} }
     \cup { [ics |-> ICAll(vs), icform |-> f] : f \in {"float", "int", "undef"} }
     \cup ICTime(vs)
+    \cup ICZero(vs)
 
 Mk(b, hw, x, ic, r) ==
     [bp |-> b, vars |-> BP(b), exo |-> ExoSpec(x.form, x.extra, hw.h), ics |-> ic.ics,
@@ -138,6 +148,8 @@ KeepQuick(c) == /\ ExoRejected(c) => (c.ics = << >> \/ (Len(c.ics) > 1 /\ c.icfo
                 /\ IsLate(c) => (c.reduce /\ c.icform = "float" /\ (c.ics = << >> \/ Len(c.ics) > 1)
                                  /\ c.late # c.horizon + 1)
                 /\ HasTimeIC(c) => (c.where \in {"block", "solver"} /\ ~ExoRejected(c)
+                                    /\ (c.exo.form = "scalar" \/ (c.exo.form = "list" /\ Len(c.exo.vals) = c.horizon + 1)))
+                /\ HasZeroIC(c) => (c.where = "block" /\ c.bp \notin ZBPs
                                     /\ (c.exo.form = "scalar" \/ (c.exo.form = "list" /\ Len(c.exo.vals) = c.horizon + 1)))
                 /\ c.bp \in ZBPs => (c.where = "block" /\ ~HasTimeIC(c)
                                      /\ (c.exo.form = "scalar" \/ (c.exo.form = "list" /\ Len(c.exo.vals) = c.horizon + 1)))
@@ -194,6 +206,8 @@ InitThorough ==
               LET c == Mk(b, hw, x, ic, r)
                   keep == /\ (IsLate(c) => (c.reduce /\ c.late # c.horizon + 1)) /\ (c.where = "both" => c.reduce)
                           /\ ((HasTimeIC(c) \/ c.bp = "B5") => c.where \in {"block", "solver", "default"})
+                          /\ (HasZeroIC(c) => (c.where \in {"block", "solver"} /\ c.bp \notin ZBPs
+                                               /\ c.exo.form \in {"list", "scalar"}))
                           /\ (c.bp \in ZBPs => (c.where = "block" /\ ~HasTimeIC(c) /\ c.exo.form \in {"list", "scalar"}))
               IN keep /\ StartWith(c)
     \/ PairInit(BPs \ ZBPs, 0..5, {0, 3})
